@@ -345,16 +345,14 @@ private theorem prefix_doc {vr : VR} {cs : List Constraint} {m : Machine} (dom :
     exact ⟨dom.resIdx r a at_ hmem', fun c hc => by subst hc; exact dom.resOk r a c hmem'⟩
 
 /-- **Sequential placer: only the documented errors.**  Under the documented domain the sequential
-placer (default vertex order, EVERY chip order) fails with `InsufficientResourceError` or
+placer (default vertex order or a custom order that is a permutation of the vertices, EVERY chip
+order - hence Hilbert, RCM, breadth-first) fails with `InsufficientResourceError` or
 `InvalidConstraintError` only - never KeyError / IndexError / ValueError, never by running out of
-scan steps.  For a custom vertex order the statement assumes that the rewrite of the order for the
-merged vertices succeeds and yields the vertices of the merged problem (true for permutations of
-the vertices; validated by correspondence, not proved). -/
+scan steps. -/
 theorem seqPlace_documented (vr : VR) (cs : List Constraint) (m : Machine)
     (vertexOrder : Option (List Vtx)) (chipOrder : Option (List Chip)) (e : Err)
     (wf : WF vr cs m) (hcons : Consistent vr cs) (dom : InDomain vr cs m)
-    (hvo : ∀ vo, vertexOrder = some vo → ∀ vr' cs' subs, applySame vr cs = .ok (vr', cs', subs) →
-      ∃ order, substOrder 0 subs vo = .ok order ∧ (∀ v ∈ order, v ∈ keys vr') ∧ ∀ v ∈ keys vr', v ∈ order)
+    (hvo : ∀ vo, vertexOrder = some vo → vo.Nodup ∧ ∀ v, v ∈ vo ↔ v ∈ keys vr)
     (h : seqPlace vr cs m vertexOrder chipOrder = .error e) : e = .insufficient ∨ e = .invalidConstraint := by
   obtain ⟨d1, d2⟩ := prefix_doc dom
   unfold seqPlace at h
@@ -400,9 +398,11 @@ theorem seqPlace_documented (vr : VR) (cs : List Constraint) (m : Machine)
           simp only [hA, hP, bind, Except.bind, pure, Except.pure] at h
           exact core (keys vr') (fun v hv => hv) (fun v hv => hv) h
         | some vo =>
-          obtain ⟨order, hS, ho1, ho2⟩ := hvo vo rfl _ _ _ hA
+          obtain ⟨hvn, hvm⟩ := hvo vo rfl
+          obtain ⟨order, hS, _, ho⟩ := O.orderOk vo hvn hvm
+          simp only [List.length_nil] at hS
           simp only [hA, hP, hS, bind, Except.bind] at h
-          exact core order ho1 ho2 h
+          exact core order (fun v hv => (ho v).1 hv) (fun v hv => (ho v).2 hv) h
 
 /-- **Random placer: only the documented errors**, for EVERY sequence of draws (`BadOracle` is the
 model's answer to a sequence of draws the RNG cannot produce, not an exception of the code). -/
@@ -937,6 +937,13 @@ private theorem exDom : InDomain exVR exCS exM where
 example (co : Option (List Chip)) (e : Err) (h : seqPlace exVR exCS exM none co = .error e) :
     e = .insufficient ∨ e = .invalidConstraint :=
   seqPlace_documented exVR exCS exM none co e exWF exCons exDom (by intro vo h; simp at h) h
+
+example (co : Option (List Chip)) (e : Err) (h : seqPlace exVR exCS exM (some [o 2, o 0, o 1]) co = .error e) :
+    e = .insufficient ∨ e = .invalidConstraint :=
+  seqPlace_documented exVR exCS exM _ co e exWF exCons exDom
+    (by intro vo h; injection h with h; subst h; exact ⟨by decide, by
+      intro v; simp only [exVR, keys, List.map_cons, List.map_nil, List.mem_cons, List.not_mem_nil, or_false]
+      constructor <;> (intro h; rcases h with h | h | h <;> simp [h])⟩) h
 
 example (picks : List Chip) (e : Err) (h : randPlace exVR exCS exM picks = .error e) :
     e = .insufficient ∨ e = .invalidConstraint ∨ e = .badOracle :=
